@@ -702,6 +702,16 @@ def gen(tier, rng):
                 for cs in range(1, 5):
                     yield {'op': 'kmvold', 'data': data, 'map': [INV64 if x is None else x for x in mp], 'cs': cs,
                            'inv': INV64, 'dst': 'f' if (nm + cs) % 2 else 'a'}
+    # longer maps for the deprecated map streamer: the switch to the next DATA chunk falls in the middle of a MAP chunk
+    # (rows of that map chunk already emitted) and invalid entries follow the switch point
+    for _ in range(6000 if big else 1500):
+        cs = rng.randint(2, 4)
+        nd = rng.randint(cs, 3 * cs + 1)
+        nm = rng.randint(cs, 3 * cs + 2)
+        vals = sorted(rng.randint(0, nd - 1) for _ in range(nm))
+        mp = [INV64 if rng.random() < 0.35 else v for v in vals]
+        yield {'op': 'kmvold', 'data': [10 * (j + 1) for j in range(nd)], 'map': mp, 'cs': cs, 'inv': INV64,
+               'dst': 'f' if rng.random() < 0.5 else 'a'}
     # ---- Session.ordered_merge_left / ordered_merge_right
     n3, k3 = (6, 4) if big else (4, 4)
     seqs3 = list(_nondecr(n3, k3))
